@@ -256,8 +256,11 @@ def run(ctx):
         if out.startswith(("CRASH", "HANG", "PANIC", "A=PANIC")) or "cyclic" not in out and "noitem" not in out:
             ctx.violation({"kind": "modgraph", "mods": mods, "go": out[:300]}, f"C15 regression {fid}: {out[:120]}")
     two = list(mg.family_a()) + list(mg.family_b()) + list(mg.family_c()) + list(mg.family_e())
-    for i in range(0, len(two), 3000):
-        judge(ctx, two[i:i + 3000], "C15 two-module")
+    for i in range(0, len(two), 1000):
+        if len(ctx.violations) >= 5:
+            ctx.note("stopped early: five violations reported")
+            break
+        judge(ctx, two[i:i + 1000], "C15 two-module")
     edges, nsets, nflags = mg.family_d_space()
     if ctx.tier == "quick":
         three = [mg.family_d_graph(ctx.rng, ctx.rng.randrange(nsets), ctx.rng.randrange(nflags)) for _ in range(2500)]
@@ -269,8 +272,10 @@ def run(ctx):
             three.append(mg.family_d_graph(ctx.rng, eset, ctx.rng.randrange(nflags)))
     else:
         three = [mg.family_d_graph(ctx.rng, e, fl) for e in range(nsets) for fl in range(nflags)]
-    for i in range(0, len(three), 4000):
-        judge(ctx, three[i:i + 4000], "C15 three-module")
+    for i in range(0, len(three), 1000):
+        if len(ctx.violations) >= 5:
+            break
+        judge(ctx, three[i:i + 1000], "C15 three-module")
     ctx.coverage["graphs"] = len(two) + len(three)
     ctx.coverage["rule"] = ("module graphs over functions f,g / globals x,y / type T with pub and private variants: 2 modules "
                             "exhaustively (every visibility table x every import subset; wrong kinds; every set and order of "
